@@ -30,7 +30,7 @@ ASSUMPTIONS = [
     "Julia is not installed: a Julia-subset evaluator written for this check decides 'inside the subset and evaluates to the right numbers', not acceptance by real Julia",
     "oracle: Model.__call__ on the same state (monitored by C01) and mon/refmodel",
 ]
-N = {"quick": 96, "thorough": 1500}
+N = {"quick": 96, "thorough": 2400}
 MIN_NONTRIVIAL = {"quick": 25, "thorough": 500}
 LANGS = ["py", "ts", "rs", "jl"]
 
